@@ -716,15 +716,7 @@ impl Check for C07 {
                     if ctx.violations.iter().any(|v| v.sig == sig) {
                         continue;
                     }
-                    ctx.pre_violation(&sig, &what, &json!({"history": hv, "path": "host", "gc": gc.to_json(), "fail_alloc": f}));
-                    ctx.progress("minimise");
-                    let (gc2, sig2) = (gc.clone(), sig.clone());
-                    let hm = if f.is_none() {
-                        shrink_history(&h, &|c| host_violations(c, gc2.clone(), None).0.iter().any(|(s, _)| s == &sig2))
-                    } else {
-                        h.clone()
-                    };
-                    ctx.violation(sig, what, json!({"history": hm, "path": "host", "gc": gc.to_json(), "fail_alloc": f}));
+                    ctx.violation(sig, what, json!({"history": hv, "path": "host", "gc": gc.to_json(), "fail_alloc": f}));
                 }
             }
         } else {
@@ -766,17 +758,32 @@ impl Check for C07 {
                     if ctx.violations.iter().any(|v| v.sig == sig) {
                         continue;
                     }
-                    ctx.pre_violation(&sig, &what, &json!({"history": hv, "path": "script", "schedule": s.to_json()}));
-                    ctx.progress("minimise");
-                    let (s2, sig2) = (s.clone(), sig.clone());
-                    let hm = if s.fail_alloc.is_none() && matches!(s.gc, GcPlan::Never | GcPlan::Every | GcPlan::EveryKth(..)) {
-                        shrink_history(&h, &|c| script_violations(c, &s2).0.iter().any(|(x, _)| x == &sig2))
-                    } else {
-                        h.clone()
-                    };
-                    ctx.violation(sig, what, json!({"history": hm, "path": "script", "schedule": s.to_json(), "module": module_json(&build_script(&hm))}));
+                    ctx.violation(sig, what, json!({"history": hv, "path": "script", "schedule": s.to_json(), "module": module_json(&build_script(&h))}));
                 }
             }
+        }
+    }
+    fn minimise(&self, replay: &Json, sig: &Json) -> Json {
+        let Some(h) = replay.get("history").and_then(|h| serde_json::from_value::<History>(h.clone()).ok()) else { return replay.clone() };
+        if replay.get("path").and_then(|p| p.as_str()) == Some("host") {
+            let gc = replay.get("gc").and_then(GcPlan::from_json).unwrap_or(GcPlan::Natural);
+            let f = replay.get("fail_alloc").and_then(|f| f.as_u64());
+            // allocation indices shift when operations are dropped: histories with an injected
+            // failure are not shrunk
+            let hm = if f.is_none() {
+                shrink_history(&h, &|c| host_violations(c, gc.clone(), None).0.iter().any(|(s, _)| s == sig))
+            } else {
+                h.clone()
+            };
+            json!({"history": hm, "path": "host", "gc": gc.to_json(), "fail_alloc": f})
+        } else {
+            let Some(s) = replay.get("schedule").and_then(Schedule::from_json) else { return replay.clone() };
+            let hm = if s.fail_alloc.is_none() && matches!(s.gc, GcPlan::Never | GcPlan::Every | GcPlan::EveryKth(..)) {
+                shrink_history(&h, &|c| script_violations(c, &s).0.iter().any(|(x, _)| x == sig))
+            } else {
+                h.clone()
+            };
+            json!({"history": hm, "path": "script", "schedule": s.to_json(), "module": module_json(&build_script(&hm))})
         }
     }
     fn replay(&self, replay: &Json, ctx: &mut CaseCtx) {
